@@ -15,6 +15,7 @@ from common import Check, coq_eval, impl_run, impl_run_parallel
 
 CLASSES = ["XOS", "XKey", "XRuntime"]
 STARTS = ["root", "launcher", "dropped"]
+SOCKET_CLASSES = ["XInUse", "XNotAvail", "XAccess"]     # OSError(EADDRINUSE / EADDRNOTAVAIL / EACCES) at socket calls
 ROOT, UIDV, GIDV = "/srv/gopher", "pwd.getpwnam(alice)[2]", "grp.getgrnam(staff)[2]"
 ID_CHANGERS = {"os.setgroups", "os.setregid", "os.setreuid", "os.setuid", "os.setgid", "os.seteuid", "os.setegid",
                "os.setresuid", "os.setresgid", "os.initgroups"}
@@ -22,36 +23,84 @@ BEST_EFFORT = {"os.setpgrp", "os.getpgrp"}
 RANK = {"os.chroot": 1, "os.setgroups": 2, "os.setregid": 3, "os.setreuid": 4}
 
 
+SPELLINGS = [("on", True), ("1", True), ("True", True), ("YES", True), ("tRuE", True),
+             ("off", False), ("0", False), ("False", False), ("nO", False),
+             ("maybe", None), ("", None), ("2", None), ("yes please", None)]     # = Model/Init.v spellings
+BOOL_OPTION = {"usechroot": "BChroot", "detach": "BDetach", "enable_tls": "BTls"}
+
+
+def mk(c, u, g, t, p, d, u0=False, g0=False, alt=None):
+    return {"chroot": c, "uid": u, "gid": g, "tls": t, "pid": p, "detach": d, "uid0": u0, "gid0": g0, "alt": alt}
+
+
+def base_opts():
+    return [mk(c, u, g, t, p, d) for c, u, g, t, p, d in
+            itertools.product([False, True], [False, True], [False, True], ["absent", "off", "on"], [False, True],
+                              [False, True])]
+
+
+def id0_opts():
+    """accounts whose numeric id is 0 (toor / wheel), for each present/absent combination"""
+    return [mk(c, u, g, "absent", False, False, u0, g0) for c in (False, True)
+            for (u, g), (u0, g0) in [((True, False), (True, False)), ((False, True), (False, True)),
+                                     ((True, True), (True, False)), ((True, True), (False, True)),
+                                     ((True, True), (True, True))]]
+
+
+def chroot_spelled():
+    return [mk(bool(m), True, True, "absent", False, False, alt=["usechroot", s, m]) for s, m in SPELLINGS]
+
+
+def spelled_opts():
+    return (chroot_spelled()
+            + [mk(True, True, True, "absent", False, bool(m), alt=["detach", s, m]) for s, m in SPELLINGS]
+            + [mk(True, True, True, "off" if m is False else "on", False, False, alt=["enable_tls", s, m])
+               for s, m in SPELLINGS])
+
+
 def all_opts():
-    out = []
-    for c, u, g, t, p, d in itertools.product([False, True], [False, True], [False, True], ["absent", "off", "on"],
-                                              [False, True], [False, True]):
-        out.append({"chroot": c, "uid": u, "gid": g, "tls": t, "pid": p, "detach": d})
-    return out
+    return base_opts() + id0_opts() + spelled_opts()
 
 
 def sec_opts():
-    return [{"chroot": c, "uid": u, "gid": g, "tls": "absent", "pid": False, "detach": False}
-            for c, u, g in itertools.product([False, True], repeat=3)]
+    return [mk(c, u, g, "absent", False, False) for c, u, g in itertools.product([False, True], repeat=3)] \
+        + id0_opts() + chroot_spelled()
 
 
 def cb(b):
     return "true" if b else "false"
 
 
+_INTERN = {}
+
+
 def cs(s):
-    return "[" + ";".join(str(ord(ch)) for ch in s) + "]"
+    """Gallina name of an interned string literal (the table goes into every shard once)."""
+    if s not in _INTERN:
+        _INTERN[s] = "s%d" % len(_INTERN)
+    return _INTERN[s]
+
+
+def intern_table():
+    return "\n".join("Definition %s : str := [%s]." % (name, ";".join(str(ord(ch)) for ch in s))
+                     for s, name in _INTERN.items())
 
 
 def coq_opts(o):
     tls = {"absent": "TlsAbsent", "off": "TlsOff", "on": "TlsOn"}[o["tls"]]
-    return "(Opts %s %s %s %s %s %s)" % (cb(o["chroot"]), cb(o["uid"]), cb(o["gid"]), tls, cb(o["pid"]), cb(o["detach"]))
+    alt = "None"
+    if o.get("alt"):
+        opt, sp, m = o["alt"]
+        alt = "(Some (%s, (%s, %s)))" % (BOOL_OPTION[opt], cs(sp), "None" if m is None else "(Some %s)" % cb(m))
+    return "(Opts %s %s %s %s %s %s %s %s %s)" % (cb(o["chroot"]), cb(o["uid"]), cb(o["gid"]), tls, cb(o["pid"]),
+                                                 cb(o["detach"]), cb(o.get("uid0")), cb(o.get("gid0")), alt)
 
 
 def coq_case(case):
     r = case["res"]
     f = case["fail"]
-    fail = "None" if f is None else "(Some (%d%%nat, %s))" % (f[0], f[1])
+    # the errno variants of OSError are all OSError for the except clauses
+    fail = "None" if f is None else "(Some (%d%%nat, %s))" % (f[0], "XOS" if f[1] in SOCKET_CLASSES else f[1])
     kind = {"running": 0, "abort": 1, "exited": 2}[r["kind"]]
     origin = "None" if r["origin"] is None else "(Some %d%%nat)" % r["origin"]
     tr = "[" + "; ".join("(%s, [%s])" % (cs(n), "; ".join(cs(a) for a in args)) for n, args in r["trace"]) + "]"
@@ -71,11 +120,27 @@ def oracle(case):
     names = [n for n, _ in r["trace"]]
     hits = []
     whole = case["entry"] == "initialize"
-    # bind and keys before any privilege change
+    uidv = "0" if o.get("uid0") else UIDV
+    gidv = "0" if o.get("gid0") else GIDV
+    # what ConfigParser.getboolean makes of the spelling in the file (None: it raises ValueError)
+    import configparser
+    states = configparser.RawConfigParser.BOOLEAN_STATES
+    want_chroot = o["chroot"]
+    invalid = None
+    if o.get("alt"):
+        opt, sp, _ = o["alt"]
+        val = states.get(sp.lower())
+        if val is None:
+            invalid = opt
+        elif opt == "usechroot":
+            want_chroot = val
+    # bind, listen and keys before any privilege change
     for i, n in enumerate(names):
         if n == "os.chroot" or n in ID_CHANGERS:
-            if whole and "server_class" not in names[:i]:
+            if whole and "socket.bind" not in names[:i]:
                 hits.append(("priv-before-bind", "%s happens before the listening socket is bound" % n))
+            if whole and "socket.listen" not in names[:i]:
+                hits.append(("priv-before-listen", "%s happens before the listening socket listens" % n))
             if whole and o["tls"] == "on" and "context.load_cert_chain" not in names[:i]:
                 hits.append(("priv-before-keys", "%s happens before the TLS key is loaded" % n))
             if n in ID_CHANGERS and n not in RANK:
@@ -85,14 +150,23 @@ def oracle(case):
     if any(a >= b for a, b in zip(ranks, ranks[1:])):
         hits.append(("order", "privilege steps out of order: " + " ".join(n for n in names if n in RANK)))
     # completeness of a start-up that goes on to serve
-    if r["kind"] == "running":
-        want = {"os.chroot": o["chroot"], "os.setgroups": o["uid"] or o["gid"], "os.setregid": o["gid"],
+    if invalid is not None and f is None and case["entry"] == "initialize" or \
+            invalid == "usechroot" and f is None:
+        if r["kind"] == "running" or any(n == "os.chroot" or n in ID_CHANGERS for n in names):
+            hits.append(("invalid-boolean-accepted:" + invalid,
+                         "%s = %r is not a boolean for ConfigParser.getboolean, yet start-up %s"
+                         % (invalid, o["alt"][1], "goes on to serve" if r["kind"] == "running" else "changes privileges")))
+    if whole and r["kind"] == "running" and ("socket.bind" not in names or "socket.listen" not in names):
+        hits.append(("running-unbound", "start-up reaches Running without a bound, listening socket: "
+                     + " ".join(n for n in names if n.startswith("socket."))))
+    if r["kind"] == "running" and invalid is None:
+        want = {"os.chroot": want_chroot, "os.setgroups": o["uid"] or o["gid"], "os.setregid": o["gid"],
                 "os.setreuid": o["uid"]}
         for n, w in want.items():
             if (n in names) != bool(w):
                 hits.append(("presence:" + n, "%s %s although the configuration says otherwise"
                              % (n, "missing" if w else "called")))
-        exp = {"os.chroot": [ROOT], "os.setgroups": ["()"], "os.setregid": [GIDV, GIDV], "os.setreuid": [UIDV, UIDV]}
+        exp = {"os.chroot": [ROOT], "os.setgroups": ["()"], "os.setregid": [gidv, gidv], "os.setreuid": [uidv, uidv]}
         for n, args in r["trace"]:
             if n in exp and args != exp[n]:
                 hits.append(("args:" + n, "%s called with %r, expected %r" % (n, args, exp[n])))
@@ -119,8 +193,8 @@ def oracle(case):
     if r["kind"] == "running":
         ruid, euid, suid, rgid, egid, sgid, groups = r["final_creds"]
         s0 = r["start_creds"]
-        want = [UIDV if o["uid"] else s0[0], UIDV if o["uid"] else s0[1], UIDV if o["uid"] else s0[2],
-                GIDV if o["gid"] else s0[3], GIDV if o["gid"] else s0[4], GIDV if o["gid"] else s0[5],
+        want = [uidv if o["uid"] else s0[0], uidv if o["uid"] else s0[1], uidv if o["uid"] else s0[2],
+                gidv if o["gid"] else s0[3], gidv if o["gid"] else s0[4], gidv if o["gid"] else s0[5],
                 "()" if (o["uid"] or o["gid"]) else s0[6]]
         names_ = ["real uid", "effective uid", "saved uid", "real gid", "effective gid", "saved gid", "supplementary groups"]
         bad = [(n, got, w) for n, got, w in zip(names_, r["final_creds"], want) if got != w]
@@ -133,14 +207,15 @@ def oracle(case):
         if r["kind"] != "abort":
             hits.append(("continues-after-failure:" + r["failed_call"],
                          "start-up goes on (%s) although %s raised %s" % (r["kind"], r["failed_call"], f[1])))
-        elif r["attempts"] != f[0] + 1:
+        elif any(n != "socket.close" for n in r["attempted"][f[0] + 1:]):
             hits.append(("calls-after-failure:" + r["failed_call"],
-                         "further external calls were made after %s failed" % r["failed_call"]))
+                         "further external calls were made after %s failed: %s"
+                         % (r["failed_call"], " ".join(r["attempted"][f[0] + 1:]))))
     return hits
 
 
 def sweep(configs, parallel=True):
-    jobs = [{"op": "c19_sweep", "configs": [c], "classes": CLASSES} for c in configs]
+    jobs = [{"op": "c19_sweep", "configs": [c], "classes": CLASSES, "socket_classes": SOCKET_CLASSES} for c in configs]
     res = impl_run_parallel(jobs) if parallel else impl_run(jobs)
     cases = []
     for r in res:
@@ -161,7 +236,8 @@ def run(tier):
     # starting credentials: every configuration as root; the security-relevant ones (and init_security
     # alone) also through a set-uid-root launcher and as the already-switched account
     sec = sec_opts()
-    configs = [{"entry": "initialize", "opts": o, "starts": STARTS if o in sec else ["root"]} for o in all_opts()] + \
+    configs = [{"entry": "initialize", "opts": o, "starts": STARTS if (o in sec and not o.get("alt")) else ["root"]}
+               for o in all_opts()] + \
               [{"entry": "init_security", "opts": o, "starts": STARTS} for o in sec]
     cases = sweep(configs)
 
@@ -188,10 +264,11 @@ def run(tier):
                               % c["entry"]}, tag=tag)
     # ---------------- K ----------------
     lits = [coq_case(c) for c in cases]
-    mism, err, nsh = coq_eval("C19", "k_run", "Lib.Str Model.Init Corr.K19", "chk_run", lits, shard=300)
+    mism, err, nsh = coq_eval("C19", "k_run", "Lib.Str Model.Init Corr.K19", "chk_run", lits, shard=600,
+                              pre=intern_table())
     cov["correspondence"] = {"cases": len(cases), "shards": nsh, "mismatches": len(mism), "errors": [err] if err else [],
                              "configurations_initialize": len(all_opts()), "configurations_init_security": len(sec_opts()),
-                             "failure_classes": CLASSES, "exhaustive": True}
+                             "failure_classes": CLASSES, "extra_classes_at_socket_calls": SOCKET_CLASSES, "exhaustive": True}
     cov["oracle"] = {"sequences_checked": len(cases), "findings": {t: len(v) for t, v in seen_tags.items()}}
     full = [c for c in cases if c["entry"] == "initialize" and c["fail"] is None and not c["fork_parent"]
             and all(c["opts"][k] for k in ("chroot", "uid", "gid", "pid", "detach")) and c["opts"]["tls"] == "on"]
@@ -210,8 +287,9 @@ def run(tier):
             "count": len(mism)}
         chk.correspondence_broken("K19 (IR semantics of initialization.py vs the real start-up)", detail, found)
     chk.finish_proofs(found)
-    cov["rule"] = ("exhaustive: usechroot x setuid x setgid x TLS{absent,off,on} x pidfile x detach (96 configurations of "
-                   "initialize) + 8 configurations of init_security alone, started as root; the 8 security configurations of both "
+    cov["rule"] = ("exhaustive: usechroot x setuid x setgid x TLS{absent,off,on} x pidfile x detach (96), accounts whose id "
+                   "is 0 for each present/absent combination (10), every boolean option in 13 spellings incl. invalid ones (39) "
+                   "for initialize + 31 configurations of init_security alone, started as root; the security configurations of both "
                    "also started through a set-uid-root launcher (real ids = account, effective/saved 0) and as the account "
                    "itself; for each the unfailed start-up, the parent side "
                    "of the fork, and every external call failing in turn with OSError / KeyError / RuntimeError; "
@@ -220,8 +298,11 @@ def run(tier):
         "external calls are the only places where start-up can fail (configuration reads and logging are treated as total)",
         "exception classes: OSError, KeyError, any other Exception (RuntimeError); the except clauses of initialization.py "
         "are matched against these by name (Model/Init.v catches)",
-        "os/ssl/sighandlers/open/pwd/grp/server classes are substituted inside initialization.py only; "
-        "init_config/init_logger/init_exceptions/init_mimetypes run for real and are opaque steps of the IR",
+        "os/ssl/sighandlers/open/pwd/grp are substituted inside initialization.py only; the REAL pygopherd.server "
+        "classes are constructed over a substituted socket layer (the name `socket` inside socketserver and "
+        "pygopherd.server), every socket call is recorded and fails in turn, with EADDRINUSE / EADDRNOTAVAIL / EACCES "
+        "in addition; init_config/init_logger/init_exceptions run for real every time, init_mimetypes once per "
+        "driver process; they are opaque steps of the IR",
         "chdir must be os.chdir('/') after os.chroot (the chdir-then-chroot('.') idiom would need the checker widened)",
         "process-group set-up (os.setpgrp/os.getpgrp) is best-effort by design and exempt from the abort clause",
         "credentials are simulated symbolically (root = 0, the configured account = the pwd/grp look-up results) with the "
